@@ -20,6 +20,8 @@ RELATED = {
     "C13": [("C10", ["C10.R2", "C10.R3", "C10.R5"])],                          # the shrunk relocation scatters the new, smaller offset
     "C15": [("C02", ["C02.R2"])],                                              # forward references are patched with replace_by: every slot must be replaced
     "C16": [("C02", ["C02.R2"])],
+    "C18": [("C14", ["C14.R9"])],                                              # the hex / s-record writers cut the data with the same chunks() helper
+    "C19": [("C14", ["C14.R9"])],
     "C21": [("C20", None)],
     "C39": [("C10", ["C10.R4", "C10.R8"])],                                    # the same bitfun helpers: range gates and the rotated immediate
     "C27": [("C01", ["C01.R5"]), ("C28", ["C28.R8"])],                                              # case labels are constant expressions converted to the (promoted) type of the switch
